@@ -270,7 +270,7 @@ Definition pos_eqb (a b : pos) : bool := (Z.eqb (fst a) (fst b) && Z.eqb (snd a)
 Definition lit_eqb (a b : lit) : bool :=
   match a, b with
   | LInt x, LInt y | LFloat x, LFloat y => Z.eqb x y
-  | LString x, LString y | LBytes x, LBytes y => if list_eq_dec Z.eq_dec x y then true else false
+  | LString x, LString y | LBytes x, LBytes y => bytes_eqb x y
   | _, _ => false
   end.
 
@@ -324,7 +324,6 @@ Definition list_eqb {A} (f : A -> A -> bool) : list A -> list A -> bool :=
 Definition opt_eqb {A} (f : A -> A -> bool) (o q : option A) : bool :=
   match o, q with None, None => true | Some x, Some y => f x y | _, _ => false end.
 
-Definition bytes_eqb (x y : list Z) : bool := if list_eq_dec Z.eq_dec x y then true else false.
 
 Fixpoint stmt_eqb (a b : stmt) : bool :=
   let fix lst (l m : list stmt) : bool :=
